@@ -91,3 +91,32 @@ Theorem use_side_no_conflict_partial :
   Forall (fun d => d_conflict d = false) (validated (resolve_strategy_generic B (Some (use_strategy side)))).
 Proof. exact use_side_root_no_conflict. Qed.
 Print Assumptions use_side_no_conflict_partial.
+
+(* the two arms of _merge_lists where a use-X acts while deciding *)
+Theorem use_side_equiv_pr_arm :
+  forall cs B p l r,
+  truthy l = true -> truthy r = true -> conflict_args_eqb cs l r = false ->
+  exists Bopen, b_conflict cs B p l r None = Ok Bopen /\
+    map drop_strategy (b_base B p l r)
+      = map drop_strategy B ++ relabel_conflicts ABase (skipn (List.length B) (map drop_strategy Bopen)) /\
+    (exists Bl, b_local B p l r = Ok Bl /\
+       map drop_strategy Bl = map drop_strategy B ++ relabel_conflicts ALocal (skipn (List.length B) (map drop_strategy Bopen))) /\
+    (exists Br, b_remote B p l r = Ok Br /\
+       map drop_strategy Br = map drop_strategy B ++ relabel_conflicts ARemote (skipn (List.length B) (map drop_strategy Bopen))).
+Proof. exact StrategiesProofs.use_side_equiv_pr_arm. Qed.
+Print Assumptions use_side_equiv_pr_arm.
+
+Theorem use_side_equiv_insert_arm :
+  forall cs B p l r side,
+  is_side side -> truthy l = true -> truthy r = true -> conflict_args_eqb cs l r = false ->
+  exists Bside,
+    b_tryresolve cs B p l r (Some (use_strategy side)) = Ok (Bside, true) /\
+    b_tryresolve cs B p l r (Some (of_ascii "mergetool")) = Ok (B, false) /\
+    (forall Bopen, b_local_then_remote B p l r true = Ok Bopen ->
+       map drop_strategy Bside = map drop_strategy B ++
+         relabel_conflicts (side_action side) (skipn (List.length B) (map drop_strategy Bopen))) /\
+    (forall Bopen, b_remote_then_local B p l r true = Ok Bopen ->
+       map drop_strategy Bside = map drop_strategy B ++
+         relabel_conflicts (side_action side) (skipn (List.length B) (map drop_strategy Bopen))).
+Proof. exact StrategiesProofs.use_side_equiv_insert_arm. Qed.
+Print Assumptions use_side_equiv_insert_arm.
